@@ -508,7 +508,14 @@ func (aof *AppendableFile) readAt(bs []byte, off int64) (n int, err error) {
 	var boff int
 
 	if off < aof.fileOffset {
-		n, err = aof.f.ReadAt(bs, aof.fileBaseOffset+off)
+		// only the bytes below fileOffset belong to the file; what the file
+		// holds beyond it (preallocated space, data left behind by SetOffset
+		// or by a failed sync) is superseded by the write buffer
+		fbs := bs
+		if int64(len(fbs)) > aof.fileOffset-off {
+			fbs = bs[:aof.fileOffset-off]
+		}
+		n, err = aof.f.ReadAt(fbs, aof.fileBaseOffset+off)
 	} else {
 		boff = int(off - aof.fileOffset)
 	}
